@@ -54,3 +54,31 @@ def calcfg (K : CalConsts) (req : CalReq) (rs : List RsChan) : CalOut :=
   else { result := K.resNotSupp }
 
 end SuplaVerif
+
+namespace SuplaVerif
+
+/-- what user_init (user_main.c) looks at when it decides between normal operation and the open configuration mode -/
+structure BootCfg where
+  locId0 : Bool     -- LocationID == 0
+  locPwd0 : Bool    -- LocationPwd[0] == 0 (the MQTT password shares the field)
+  email0 : Bool     -- Email[0] == 0 (the MQTT user name shares the field)
+  server0 : Bool
+  wifiPwd0 : Bool
+  ssid0 : Bool
+  mqttEnabled : Bool := false   -- CFG_FLAG_MQTT_ENABLED
+  mqttNoAuth : Bool := false    -- CFG_FLAG_MQTT_NO_AUTH
+  locked : Bool := false        -- CFG_FLAG_DEVICE_LOCKED
+  deriving Repr, DecidableEq
+
+/-- build without MQTT support: configuration mode at boot -/
+def bootCfgModeBase (c : BootCfg) : Bool :=
+  ((c.locId0 || c.locPwd0) && c.email0) || c.server0 || c.wifiPwd0 || c.ssid0
+
+/-- build with MQTT support -/
+def bootCfgModeMqtt (c : BootCfg) : Bool :=
+  (c.ssid0 || c.wifiPwd0 ||
+    (c.mqttEnabled && (c.server0 || (!c.mqttNoAuth && (c.email0 || c.locPwd0)))) ||
+    (!c.mqttEnabled && (c.server0 || c.email0))) ||
+  (c.mqttEnabled && c.locked)
+
+end SuplaVerif
